@@ -1,4 +1,5 @@
 use super::*;
+use std::collections::BTreeSet;
 
 /// Interface between the high level [Op::op()](crate::op::Op) and the low level
 /// functionality in the [InnerOp](crate::inner_op::InnerOp)s
@@ -16,12 +17,16 @@ pub struct RawParameters {
     pub definition: String,
     pub globals: BTreeMap<String, String>,
     recursion_level: usize,
+    // The keys among the globals that stem from the context (e.g. the default
+    // ellipsoid), as opposed to arguments given by the caller(s) of a macro
+    context_keys: BTreeSet<String>,
 }
 
 impl RawParameters {
     pub fn new(invocation: &str, globals: &BTreeMap<String, String>) -> RawParameters {
         let recursion_level = 0;
         let globals = globals.clone();
+        let context_keys = globals.keys().cloned().collect();
         let invocation = invocation.to_string();
         let definition = invocation.clone();
 
@@ -34,6 +39,7 @@ impl RawParameters {
                 definition,
                 globals,
                 recursion_level,
+                context_keys,
             };
             return previous.next(&previous.invocation);
         }
@@ -45,6 +51,7 @@ impl RawParameters {
             definition,
             globals,
             recursion_level,
+            context_keys,
         }
     }
 
@@ -56,9 +63,14 @@ impl RawParameters {
     pub fn next(&self, definition: &str) -> RawParameters {
         let mut recursion_level = self.recursion_level + 1;
         let mut globals = self.globals.clone();
+        let mut context_keys = self.context_keys.clone();
         if definition.is_resource_name() {
             globals.remove("_name");
-            globals.extend(definition.split_into_parameters());
+            let arguments = definition.split_into_parameters();
+            for key in arguments.keys() {
+                context_keys.remove(key);
+            }
+            globals.extend(arguments);
             globals.remove("inv");
             globals.remove("omit_fwd");
             globals.remove("omit_inv");
@@ -71,7 +83,18 @@ impl RawParameters {
             definition,
             globals,
             recursion_level,
+            context_keys,
         }
+    }
+
+    /// The arguments given by the caller(s) of the macro we are (a step) in, i.e.
+    /// the globals that do not stem from the context
+    pub fn caller_arguments(&self) -> BTreeMap<String, String> {
+        self.globals
+            .iter()
+            .filter(|(key, _)| !self.context_keys.contains(*key) && *key != "_name")
+            .map(|(key, value)| (key.clone(), value.clone()))
+            .collect()
     }
 
     pub fn nesting_too_deep(&self) -> bool {
